@@ -38,7 +38,7 @@ func main() {
 		"non-trivial = reach(root) ≥ 3 nodes ∧ (shared node or duplicate successor) ∧ ≥ 1 node transferred ∧ call succeeded")
 	r.Assume("remote registries are represented by the registry model (regmodel) on loopback HTTP")
 	r.Assume("interleavings are sampled (latency seeds, 16 cores), not enumerated")
-	worker.Run(r, worker.Opts{Phase: "copy", Total: r.N(1500, 20000), Batch: 100, Timeout: 15 * time.Minute})
+	worker.Run(r, worker.Opts{Phase: "copy", Total: r.N(3000, 30000), Batch: 100, Timeout: 15 * time.Minute})
 	if bin := os.Getenv("VERIF_RACE_BIN"); bin != "" {
 		raceDir, _ := os.MkdirTemp("", "verif-c01-race-")
 		r.Cleanup(func() { os.RemoveAll(raceDir) })
@@ -46,7 +46,7 @@ func main() {
 			Env: []string{"GORACE=halt_on_error=0 exitcode=0 log_path=" + filepath.Join(raceDir, "race")}})
 		mon.ReportRaces(r, raceDir)
 	}
-	r.Finish(r.N(150, 2000))
+	r.Finish(r.N(300, 3000))
 }
 
 func runCase(phase string, i int) worker.Result {
